@@ -57,6 +57,12 @@ func BinPath() string {
 // calls made during the handshake (InitChain or replay).
 func Start(name, root, keyring string, env []string, wrap []string) (*Box, error) {
 	b := &Box{Name: name, Root: root, Bin: BinPath(), Keyring: keyring, Env: env, Wrap: wrap, Timeout: 180 * time.Second}
+	for _, e := range env {
+		if strings.HasPrefix(e, "OLBOX_BIN=") {
+			b.Bin = strings.TrimPrefix(e, "OLBOX_BIN=")
+			b.Timeout = 600 * time.Second
+		}
+	}
 	return b, b.start()
 }
 
@@ -300,4 +306,29 @@ func CopyDir(src, dst string) error {
 		}
 		return out.Close()
 	})
+}
+
+// RaceReports counts the data-race reports the race detector logged for this
+// box (GORACE log_path=<root>/race.log) and returns the first report.
+func (b *Box) RaceReports() (int, string) {
+	matches, _ := filepath.Glob(filepath.Join(b.Root, "race.log*"))
+	n := 0
+	first := ""
+	for _, m := range matches {
+		bz, err := ioutil.ReadFile(m)
+		if err != nil {
+			continue
+		}
+		c := bytes.Count(bz, []byte("WARNING: DATA RACE"))
+		if c > 0 && first == "" {
+			i := bytes.Index(bz, []byte("WARNING: DATA RACE"))
+			end := i + 3500
+			if end > len(bz) {
+				end = len(bz)
+			}
+			first = string(bz[i:end])
+		}
+		n += c
+	}
+	return n, first
 }
